@@ -44,6 +44,7 @@ import (
 func init() {
 	logger.Disable()
 	register(&Suite{Name: "registry", Gen: genRegistry, Exec: execRegistry})
+	register(&Suite{Name: "registry-concurrent", Gen: genRegistryConcurrent, Exec: execRegistry})
 }
 
 const regURLPrefix = "http://127.0.0.1:1/"
@@ -380,6 +381,43 @@ func (e *regEnv) add(m map[string]string) string {
 	return fmt.Sprintf("ok id=%s port=%d", t.ID(), t.Port())
 }
 
+// cadd: n goroutines add the same torrent with the same explicit id at the same time.
+func (e *regEnv) cadd(m map[string]string) string {
+	n := atoi(m["n"])
+	if n <= 0 {
+		n = 8
+	}
+	b := regTorrentBytes(atoi(m["tid"]), tokName(m["name"]), parseTiers(m["trk"]), urlList(m["ws"]))
+	var wg sync.WaitGroup
+	var mu sync.Mutex
+	ok, fail := 0, 0
+	gate := make(chan struct{})
+	for i := 0; i < n; i++ {
+		wg.Add(1)
+		go func() {
+			defer wg.Done()
+			<-gate
+			opt := &torrent.AddTorrentOptions{ID: expandID(m["id"]), Stopped: m["stopped"] == "1"}
+			_, err := e.ses.AddTorrent(bytes.NewReader(b), opt)
+			mu.Lock()
+			if err == nil {
+				ok++
+			} else {
+				fail++
+			}
+			mu.Unlock()
+		}()
+	}
+	close(gate)
+	wg.Wait()
+	id := ""
+	if ok > 0 {
+		id = expandID(m["id"])
+	}
+	e.addIDs = append(e.addIDs, id)
+	return fmt.Sprintf("ok=%d fail=%d", ok, fail)
+}
+
 func urlList(s string) []string {
 	var out []string
 	for _, tok := range splitPlus(s) {
@@ -585,6 +623,8 @@ func execRegistry(ops []string) []string {
 		switch name {
 		case "add":
 			res = e.add(m)
+		case "cadd":
+			res = e.cadd(m)
 		case "remove":
 			res = errObs(e.ses.RemoveTorrent(e.refID(atoi(m["t"])), true))
 		case "start", "stop", "addtracker", "bump":
@@ -638,6 +678,28 @@ func execRegistry(ops []string) []string {
 }
 
 // ---- generator ----
+
+func genRegistryConcurrent(r *Rng, n int, tier string) []Case {
+	var cases []Case
+	for i := 0; i < n; i++ {
+		lo := 20000 + r.Intn(40000)
+		size := r.Pick(1, 2, 8, 9, 12)
+		ops := []string{fmt.Sprintf("open lo=%d hi=%d resume=1 plant=-", lo, lo+size)}
+		nadd := 0
+		for j, k := 0, r.Range(1, 3); j < k; j++ {
+			tid := r.Range(1, 3)
+			nadd++
+			ops = append(ops, fmt.Sprintf("cadd n=8 kind=t tid=%d ih=%s name=n1 trk=%s ws=- id=e%d stopped=%s",
+				tid, regInfoHash(tid, "n1"), r.PickS("-", "u1", "u1+u2/u3"), r.Range(1, 2), b01(r.Chance(60))))
+			if r.Chance(40) {
+				ops = append(ops, fmt.Sprintf("remove t=%d", r.Range(1, nadd)))
+			}
+		}
+		ops = append(ops, "reopen resume=1")
+		cases = append(cases, Case{ID: fmt.Sprintf("registry-concurrent-%d", i+1), Ops: ops})
+	}
+	return cases
+}
 
 func genRegistry(r *Rng, n int, tier string) []Case {
 	var cases []Case
